@@ -24,6 +24,8 @@ type Ctx struct {
 	streamOracle func(fn *ssa.Function, v ssa.Value) bool
 	minLenMemo   map[string][2]int64
 	validators   map[*ssa.Function]*ssa.Function
+	ctorOnlyMemo map[string]bool
+	markersSeen  map[int64]bool
 }
 
 // Info is the descriptive part of the evidence.
